@@ -444,7 +444,9 @@ void sm2_z256_modp_tri(sm2_z256_t r, const sm2_z256_t a)
 
 void sm2_z256_modp_neg(sm2_z256_t r, const sm2_z256_t a)
 {
-	(void)sm2_z256_sub(r, SM2_Z256_P, a);
+	// 0 - a (mod p), so that -0 is 0 and not p
+	const sm2_z256_t zero = {0, 0, 0, 0};
+	sm2_z256_modp_sub(r, zero, a);
 }
 
 void sm2_z256_modp_haf(sm2_z256_t r, const sm2_z256_t a)
@@ -843,7 +845,9 @@ void sm2_z256_modn_sub(sm2_z256_t r, const sm2_z256_t a, const sm2_z256_t b)
 
 void sm2_z256_modn_neg(sm2_z256_t r, const sm2_z256_t a)
 {
-	(void)sm2_z256_sub(r, SM2_Z256_N, a);
+	// 0 - a (mod n), so that -0 is 0 and not n
+	const sm2_z256_t zero = {0, 0, 0, 0};
+	sm2_z256_modn_sub(r, zero, a);
 }
 #endif
 
